@@ -1015,6 +1015,31 @@ func (e *Engine) chanSend(c *ChanObj, v Value) {
 	e.Block(func() bool { return c.taken >= my || c.Closed }, "unbuffered chan send (no receiver)")
 }
 
+// timerReady: with a pinned, concrete clock a timer fires exactly when the clock has
+// reached its next instant (as the real runtime / a synctest bubble does); otherwise
+// it may fire at any scheduling point, at most Fires times.
+func (e *Engine) timerReady(c *ChanObj) bool {
+	if c.Next != nil && e.clockPinned && e.now != nil {
+		now := e.subst(e.now)
+		if now.IsConst() && c.Next.IsConst() {
+			return sext64(now.C, 64) >= sext64(c.Next.C, 64)
+		}
+	}
+	return c.Fires > 0
+}
+
+func (e *Engine) timerFired(c *ChanObj) {
+	if c.Next != nil && e.clockPinned && e.now != nil && e.subst(e.now).IsConst() && c.Next.IsConst() {
+		if c.Period != nil {
+			c.Next = e.tb.Bin(OpAdd, c.Next, c.Period)
+		} else {
+			c.Next = e.tb.Const(64, uint64(1)<<62) // one-shot: never again
+		}
+		return
+	}
+	c.Fires--
+}
+
 func (e *Engine) chanRecv(c *ChanObj) (Value, bool) {
 	e.Yield()
 	if c == nil {
@@ -1022,8 +1047,8 @@ func (e *Engine) chanRecv(c *ChanObj) (Value, bool) {
 	}
 	if c.Timer {
 		// a timer delivers at an arbitrary scheduling point, at most Fires times
-		e.Block(func() bool { return c.Fires > 0 }, "timer receive (timer never fires again within the tick bound)")
-		c.Fires--
+		e.Block(func() bool { return e.timerReady(c) }, "timer receive (timer never fires again within the tick bound)")
+		e.timerFired(c)
 		return e.mkTime(e.clockNow()), true
 	}
 	c.recvWaiting++
@@ -1071,7 +1096,7 @@ func (e *Engine) selectOp(fr *frame, in *ssa.Select) Value {
 				continue
 			}
 			if c.dir == types.RecvOnly {
-				if len(c.ch.Buf) > 0 || c.ch.Closed || (c.ch.Timer && c.ch.Fires > 0) {
+				if len(c.ch.Buf) > 0 || c.ch.Closed || (c.ch.Timer && e.timerReady(c.ch)) {
 					r = append(r, i)
 				}
 			} else {
@@ -1127,7 +1152,7 @@ func (e *Engine) selectOp(fr *frame, in *ssa.Select) Value {
 		if i == chosen {
 			if c.ch.Timer {
 				recvOk = true
-				c.ch.Fires--
+				e.timerFired(c.ch)
 				v = e.mkTime(e.clockNow())
 			} else if len(c.ch.Buf) > 0 {
 				v = c.ch.Buf[0]
